@@ -351,6 +351,21 @@ pub fn run(c: &Value) -> Value {
             };
             json!({"inputs":inputs,"events":events,"results":results})
         }
+        // ------------------------------------------------------------ M8 event trace (hooks, --cfg narsese_verif)
+        "trace_lex" => {
+            use narsese::conversion::string::impl_lexical::verif_trace;
+            let fmt = s_of(c, "fmt");
+            let s = text_of(c, "s");
+            let f = lex_format(fmt);
+            verif_trace::install();
+            let r = guarded(|| f.parse(&s));
+            let all = verif_trace::take();
+            // the window event and the first 120 segmenter calls (the calls are independent of each other)
+            let cuts: Vec<&String> = all.iter().filter(|e| e.contains(r#""ev":"cuts""#)).collect();
+            let segs: Vec<&String> = all.iter().filter(|e| !e.contains(r#""ev":"cuts""#)).collect();
+            let keep: Vec<Value> = cuts.iter().chain(segs.iter().take(120)).map(|e| serde_json::from_str(e).unwrap_or(json!({"ev":"unparsable","raw":e.to_string()}))).collect();
+            json!({"s":s,"events":keep,"n_events":all.len(),"truncated":segs.len() > 120 && cuts.is_empty(),"r":res(r, lnarsese_to)})
+        }
         // ------------------------------------------------------------ C06 / C07
         "eqhash" => {
             let reps = c.get("reps").and_then(|r| r.as_u64()).unwrap_or(4) as usize;
